@@ -98,6 +98,20 @@ struct ReadStats {
     reads_after_eof: usize,
 }
 
+/// The error kind of an injected hard fault varies with the fault offset: a failure is a failure whatever the OS calls it
+/// (reset connections, timeouts, would-block on a non-blocking descriptor, ...).  Interrupted is never used here: it is the
+/// one kind the standard library retries, and is injected separately (rintr / wintr).
+fn fault_kind(offset: usize, read: bool) -> io::ErrorKind {
+    use io::ErrorKind::*;
+    const R: [io::ErrorKind; 10] = [Other, ConnectionReset, UnexpectedEof, BrokenPipe, ConnectionAborted, TimedOut, WouldBlock, InvalidData, PermissionDenied, NotConnected];
+    const W: [io::ErrorKind; 8] = [Other, BrokenPipe, WouldBlock, ConnectionReset, TimedOut, WriteZero, PermissionDenied, InvalidInput];
+    if read {
+        R[offset % R.len()]
+    } else {
+        W[offset % W.len()]
+    }
+}
+
 struct MonReader {
     data: Vec<u8>,
     pos: usize,
@@ -116,7 +130,7 @@ impl Read for MonReader {
         st.calls += 1;
         if st.errored {
             st.reads_after_error += 1;
-            return Err(io::Error::new(io::ErrorKind::Other, "injected read fault (repeated)"));
+            return Err(io::Error::new(fault_kind(self.fail.unwrap_or(0), true), "injected read fault (repeated)"));
         }
         if self.intr.contains(&call) {
             return Err(io::Error::new(io::ErrorKind::Interrupted, "injected EINTR"));
@@ -124,7 +138,7 @@ impl Read for MonReader {
         if let Some(k) = self.fail {
             if st.pulled >= k {
                 st.errored = true;
-                return Err(io::Error::new(io::ErrorKind::Other, "injected read fault"));
+                return Err(io::Error::new(fault_kind(k, true), "injected read fault"));
             }
         }
         if st.eof {
@@ -192,7 +206,7 @@ impl Write for MonWriter {
         st.calls += 1;
         if st.errored {
             st.writes_after_error += 1;
-            return Err(io::Error::new(io::ErrorKind::Other, "injected write fault (repeated)"));
+            return Err(io::Error::new(fault_kind(self.fail.unwrap_or(0), false), "injected write fault (repeated)"));
         }
         if self.intr.contains(&call) {
             return Err(io::Error::new(io::ErrorKind::Interrupted, "injected EINTR"));
@@ -207,7 +221,7 @@ impl Write for MonWriter {
         if let Some(k) = self.fail {
             if st.bytes.len() >= k {
                 st.errored = true;
-                return Err(io::Error::new(io::ErrorKind::Other, "injected write fault"));
+                return Err(io::Error::new(fault_kind(k, false), "injected write fault"));
             }
             n = n.min(k - st.bytes.len());
         }
